@@ -483,3 +483,200 @@ def _f_sin(x):
 
 F.cos = _f_cos
 F.sin = _f_sin
+
+
+# ------------------------------------------------------------------------------------------------
+# angles produced by np.arctan2 (utils.circle_angles) and the arc-ordering helpers that consume them
+# ------------------------------------------------------------------------------------------------
+TWO_PI = 6.283185307179586
+PI_F = 3.141592653589793
+RAD2DEG = 57.29577951308232
+
+
+def _is_const(c, val):
+    try:
+        return isinstance(c, (float, np.floating)) and abs(float(c) - val) < 1e-12
+    except TypeError:
+        return False
+
+
+class CircAng(_Scalar0d):
+    """the direction of a non-zero plane vector v = (x, y), read as an angle either in (-pi, pi] (base 'principal', what arctan2
+    returns) or in [0, 2pi) (base 'positive', after the library adds 2pi to negative angles).  All predicates are exact algebraic
+    statements about v (half-plane tests and cross products)."""
+
+    def __init__(self, x, y, base='principal', deg=False):
+        self.x, self.y = F.lift(x), F.lift(y)
+        self.base = base
+        self.deg = deg
+
+    # half-plane classes of the principal value: -1: (-pi, 0), 0: {0}, 1: (0, pi), 2: {pi}
+    def cls(self):
+        if bool(self.y > 0):
+            return 1
+        if bool(self.y < 0):
+            return -1
+        return 0 if bool(self.x > 0) else 2
+
+    def is_negative(self):
+        return self.base == 'principal' and bool(self.y < 0)
+
+    def as_positive(self):
+        """the same direction read in [0, 2pi)"""
+        return CircAng(self.x, self.y, 'positive', self.deg)
+
+    def pos_rank(self):
+        """rank of the half-plane class in [0, 2pi) order: 0:{0} 1:(0,pi) 2:{pi} 3:(pi,2pi)"""
+        c = self.cls()
+        return {0: 0, 1: 1, 2: 2, -1: 3}[c]
+
+    def pri_rank(self):
+        c = self.cls()
+        return {-1: 0, 0: 1, 1: 2, 2: 3}[c]
+
+    @staticmethod
+    def cross(a, b):
+        return a.x * b.y - a.y * b.x
+
+    def _lt(self, o):
+        """self < o as real numbers (same base required after conversion)"""
+        a, b = self, o
+        if a.base != b.base:
+            # a principal value that is >= 0 equals its positive reading
+            if a.base == 'principal':
+                if a.is_negative():
+                    return True            # negative < anything in [0, 2pi)
+                a = a.as_positive()
+            if b.base == 'principal':
+                if b.is_negative():
+                    return False
+                b = b.as_positive()
+        ra, rb = (a.pos_rank(), b.pos_rank()) if a.base == 'positive' else (a.pri_rank(), b.pri_rank())
+        if ra != rb:
+            return ra < rb
+        if ra in (0, 2) and a.base == 'positive' or (a.base == 'principal' and ra in (1, 3)):
+            return False                   # same ray: equal
+        return bool(CircAng.cross(a, b) > 0)
+
+    def __lt__(self, o):
+        if isinstance(o, CircAng):
+            return self._lt(o)
+        r = _rat(o)
+        if r == 0:
+            return self.is_negative()
+        raise Inconclusive("comparison of an arctan2 angle with a non-zero constant")
+
+    def __gt__(self, o):
+        if isinstance(o, CircAng):
+            return o._lt(self)
+        r = _rat(o)
+        if r == 0:
+            if self.base == 'positive':
+                return self.pos_rank() != 0
+            return bool(self.y > 0) or (bool(self.y == 0) and bool(self.x < 0))
+        if _is_const(o, PI_F):
+            return self.base == 'positive' and self.pos_rank() == 3
+        raise Inconclusive("comparison of an arctan2 angle with a non-zero constant")
+
+    def __le__(self, o): return not self.__gt__(o)
+    def __ge__(self, o): return not self.__lt__(o)
+
+    def __add__(self, c):
+        if _is_const(c, TWO_PI):
+            if self.base == 'principal' and self.is_negative():
+                return self.as_positive()
+            raise Inconclusive("adding 2pi to a non-negative angle")
+        r = _rat(c)
+        if r == 0:
+            return self
+        raise Inconclusive("adding a constant to an arctan2 angle")
+
+    __radd__ = __add__
+
+    def __sub__(self, o):
+        if isinstance(o, CircAng):
+            return ArcDiff(o, self)
+        r = _rat(o)
+        if r == 0:
+            return self
+        raise Inconclusive("subtracting a constant from an arctan2 angle")
+
+    def __mul__(self, c):
+        if _is_const(c, RAD2DEG) or isinstance(c, RadToDeg):
+            return CircAng(self.x, self.y, self.base, deg=True)
+        r = _rat(c)
+        if r == 1:
+            return self
+        raise Inconclusive("scaling an arctan2 angle")
+
+    __rmul__ = __mul__
+
+    def norm(self):
+        return (self.x * self.x + self.y * self.y).sqrt()
+
+    def cos(self):
+        return self.x / self.norm()
+
+    def sin(self):
+        return self.y / self.norm()
+
+    def evalf_with(self, ev):
+        import math
+        a = math.atan2(float(ev.f(self.y)), float(ev.f(self.x)))
+        if self.base == 'positive' and a < 0:
+            a += 2 * math.pi
+        return a * (180 / math.pi if self.deg else 1)
+
+    def __repr__(self):
+        return f"CircAng(({self.x.pretty()}, {self.y.pretty()}), {self.base}{', deg' if self.deg else ''})"
+
+
+class ArcDiff(_Scalar0d):
+    """b - a for two arctan2 angles of the same base; only ever compared with 0 / pi / another difference from the same start"""
+
+    def __init__(self, a, b, shifted=False):
+        self.a, self.b, self.shifted = a, b, shifted
+
+    def raw_negative(self):
+        return (not self.shifted) and self.b._lt(self.a)
+
+    def rot(self):
+        """direction of b rotated by -a: the difference modulo 2pi as a direction"""
+        a, b = self.a, self.b
+        return CircAng(a.x * b.x + a.y * b.y, a.x * b.y - a.y * b.x, 'positive')
+
+    def __lt__(self, o):
+        if isinstance(o, ArcDiff):
+            # both normalised to [0, 2pi): compare as positive angles of the rotated directions
+            if self.raw_negative() or o.raw_negative():
+                raise Inconclusive("comparison of un-normalised angle differences")
+            return self.rot()._lt(o.rot())
+        r = _rat(o)
+        if r == 0:
+            return self.raw_negative()
+        raise Inconclusive("comparison of an angle difference with a constant")
+
+    def __gt__(self, o):
+        if _is_const(o, PI_F):
+            if self.raw_negative():
+                return False
+            return self.rot().pos_rank() == 3
+        if isinstance(o, ArcDiff):
+            return o.__lt__(self)
+        raise Inconclusive("comparison of an angle difference with a constant")
+
+    def __add__(self, c):
+        if _is_const(c, TWO_PI):
+            if self.raw_negative():
+                return ArcDiff(self.a, self.b, shifted=True)
+            raise Inconclusive("adding 2pi to a non-negative angle difference")
+        raise Inconclusive("adding a constant to an angle difference")
+
+    __radd__ = __add__
+
+
+def _arctan2(y, x):
+    return CircAng(x, y)
+
+
+F.arctan2 = _arctan2
